@@ -80,6 +80,9 @@ Op(p) == loc[p].op
 SetLike(api) == api \in {"set", "set_tf"}
 TempFileApi(api) == api \in {"set_tf", "put_tf"}
 StagedOutside(api) == FrontKind = "stack" /\ api \in {"set", "put", "set_tf", "put_tf"}
+\* ensure(key, populate) is get_or_update(key, judge, populate) with the judge that always answers Promote
+EnsureLike(api) == api \in {"ensure", "gou"}
+JudgeOf(o) == IF o.api = "gou" THEN o.judge ELSE "promote"
 SrcDir == "SRC"
 TmpNameL(p, l) == "t" \o ToString(p) \o "x" \o ToString(l.opi)
 
@@ -153,12 +156,14 @@ SysLabels == {"g1", "g2", "g3", "t1", "t2", "t3", "t4",
               "c1", "c2", "c3", "c4", "c4u", "c5", "c6",
               "p1", "p1w", "p2", "p3", "p4", "p5", "p6", "q1", "q2", "q3", "q4", "p7",
               "d1", "d2", "d3", "ms1", "ms2", "ms3", "ft1", "ft2", "ft3", "ft4", "ft5", "d1t",
-              "es", "ec", "ef1", "ef2", "ecp1", "ecp2", "ew", "efc", "efs", "ecl", "eop", "eg1", "eg2", "eg3", "ecl2", "esk", "eun", "ecl3", "ecl4"}
+              "es", "ec", "ef1", "ef2", "ecp1", "ecp2", "ew", "efc", "efs", "ecl", "eop", "eg1", "eg2", "eg3", "ecl2", "esk", "eun", "ecl3", "ecl4", "eoc", "ecl5"}
 
 RO == <<"RDONLY", "CLOEXEC">>
 WO == <<"WRONLY", "CLOEXEC">>
 DIRFL == <<"RDONLY", "DIRECTORY", "CLOEXEC">>
 
+\* does this write replace (rename) or insert-if-absent (link)?  A Replace answered for a hit sets; a miss puts.
+SetsL(l) == SetLike(l.op.api) \/ (l.op.api = "gou" /\ l.wcont = "rep")
 NextCallL(p, l, lbl) ==
     LET k == l.op.key IN
     CASE lbl = "g1" -> [call |-> "open", path |-> PIn(l.b, k), flags |-> RO, ph |-> "lib"]
@@ -202,14 +207,16 @@ NextCallL(p, l, lbl) ==
       [] lbl = "p3" -> [call |-> "close", via |-> "fd", ino |-> l.fd, ph |-> "lib"]
       [] lbl = "p4" -> [call |-> "stat", path |-> PIn(l.td, l.tmp), nofollow |-> TRUE, ph |-> "lib"]
       [] lbl = "p5" -> [call |-> "chmod", path |-> PIn(l.td, l.tmp), cmode |-> ChmodMode(l.stmode), ph |-> "lib"]
-      [] lbl = "p6" -> [call |-> IF SetLike(l.op.api) THEN "rename" ELSE "link", path |-> PIn(l.td, l.tmp), path2 |-> PIn(l.b, k), ph |-> "lib"]
+      [] lbl = "p6" -> [call |-> IF SetsL(l) THEN "rename" ELSE "link", path |-> PIn(l.td, l.tmp), path2 |-> PIn(l.b, k), ph |-> "lib"]
       [] lbl = "q1" -> [call |-> "open", path |-> PIn(l.b, k), flags |-> RO, ph |-> "lib"]
       [] lbl = "q2" -> [call |-> "open", path |-> PIn(l.b, k), flags |-> WO, ph |-> "lib"]
       [] lbl = "q3" -> [call |-> "utimens", via |-> "fd", ino |-> l.fd, atk |-> "set", at |-> Tm(l.now), mtk |-> "omit", ph |-> "lib"]
       [] lbl = "q4" -> [call |-> "close", via |-> "fd", ino |-> l.fd, ph |-> "lib"]
       [] lbl = "p7" -> [call |-> "unlink", path |-> PIn(l.td, l.tmp), ph |-> "lib"]
       \* application epilogue: does the source still exist; drop the NamedTempFile
-      \* stacked cache: ensure = get_or_update with the judge Promote
+      \* stacked cache: get_or_update (ensure = get_or_update with the judge Promote)
+      [] lbl = "eoc" -> [call |-> "close", via |-> "fd", ino |-> l.hit, ph |-> "cb"]         \* Replace: populate is handed the old file and drops it
+      [] lbl = "ecl5" -> [call |-> "close", via |-> "fd", ino |-> l.hit, ph |-> "lib"]      \* error path: the pre-opened return value
       [] lbl \in {"es", "esk"} -> [call |-> "lseek", via |-> "fd", ino |-> l.hit, ph |-> "lib"]
       [] lbl = "ec" -> [call |-> "open", path |-> PIn(l.td, TmpNameL(p, l)), flags |-> <<"RDWR", "CREAT", "EXCL", "CLOEXEC">>, cmode |-> 384, ph |-> "lib"]
       [] lbl = "ef1" -> [call |-> "stat", via |-> "fd", ino |-> l.hit, ph |-> "lib"]
@@ -289,7 +296,8 @@ GoNow(l, lbl) == [pc |-> lbl, loc |-> [l EXCEPT !.now = clock], ret |-> <<>>, ti
 Done(l, ok, res, hit) == [pc |-> "ret", loc |-> l, ret |-> <<[ok |-> ok, res |-> res, hit |-> hit]>>, tick |-> FALSE]
 
 Min2(a, b) == IF a < b THEN a ELSE b
-Fail(l) == Go([l EXCEPT !.cont = "err"], IF l.op.api = "ensure" THEN (IF l.tmp # "" THEN "eun" ELSE IF l.wcont = "esk" THEN "ecl4" ELSE "fail")
+Fail(l) == Go([l EXCEPT !.cont = "err"], IF EnsureLike(l.op.api) THEN (IF l.tmp # "" THEN (IF l.wcont \in {"eg1", "rep"} /\ l.hit # "" THEN "ecl5" ELSE "eun")
+                                                                         ELSE IF l.wcont \in {"esk", "rep"} THEN "ecl4" ELSE "fail")
                                          ELSE IF TempFileApi(l.op.api) /\ l.tmp # "" THEN "ft4"
                                          ELSE IF l.tfd THEN "d1" ELSE "fail")
 \* create_dir_all(chain[1]) then continue at `ok` (or fail)
@@ -309,7 +317,8 @@ AfterMaint(l) ==
 EstAfter(l) == IF l.maintained THEN [l.est EXCEPT ![l.h1] = Min2(l.rem, 254) + 1]      \* the count the prune of the written shard returned, plus this file
                ELSE [l.est EXCEPT ![l.h1] = IF @ < 255 THEN @ + 1 ELSE @]
 FinishWrite(l) ==
-    IF l.op.api = "ensure" THEN Go(l, l.wcont)          \* promote: rewind the hit; miss: look the key up again
+    IF EnsureLike(l.op.api) THEN (IF l.wcont = "rep" THEN Go([l EXCEPT !.cont = "ok"], "eun")      \* replace: return the file opened before publishing
+                                  ELSE Go(l, l.wcont))       \* promote: rewind the hit; miss: look the key up again
     ELSE IF TempFileApi(l.op.api) THEN Go([l EXCEPT !.cont = "ok"], "ft4")
     ELSE IF FrontKind \in {"plain", "stack"} THEN Go([l EXCEPT !.cont = "ok"], "d1")
     ELSE LET l2 == [l EXCEPT !.est = EstAfter(l)] IN
@@ -325,17 +334,19 @@ PlanStep(l) ==
         l2 == [l EXCEPT !.evict = ev, !.back = bk, !.idx = 1, !.rem = Len(l.ents) - Len(ev)]
     IN IF ev # <<>> THEN Go(l2, "m7") ELSE IF bk # <<>> THEN GoNow(l2, "m8a") ELSE Go(l2, "m9")
 
+\* the judge has seen the hit: Accept / Promote rewind it (then return it or promote it); Replace keeps it as `old` and populates
+Judged(l) == IF JudgeOf(l.op) = "replace" THEN Go([l EXCEPT !.b = Root, !.td = TDof(Root), !.wcont = "rep"], "a1") ELSE Go(l, "es")
 AfterL(p, l, lbl, c) ==
     LET ok == c.res = "ok" api == l.op.api IN
     CASE lbl = "g1" -> IF ok THEN Go([l EXCEPT !.fd = c.ino, !.hit = c.ino], "g2")
                        ELSE IF AbsentErr(c.res) THEN
                             (IF l.probe = 1 /\ l.h2 # l.b THEN Go([l EXCEPT !.probe = 2, !.b = l.h2], "g1")
-                             ELSE IF api = "ensure" THEN Go([l EXCEPT !.b = Root, !.td = TDof(Root), !.wcont = "eg1", !.hit = ""], "a1")
+                             ELSE IF EnsureLike(api) THEN Go([l EXCEPT !.b = Root, !.td = TDof(Root), !.wcont = "eg1", !.hit = ""], "a1")
                              ELSE Done(l, TRUE, "none", ""))
                        ELSE Done(l, FALSE, c.res, "")
       [] lbl = "g2" -> IF ok /\ TLt(c.st.at, c.st.mt) THEN Go([l EXCEPT !.stat = c.st], "g3")
-                       ELSE IF api = "ensure" THEN Go(l, "es") ELSE Done(l, TRUE, "some", l.hit)
-      [] lbl = "g3" -> IF api = "ensure" THEN Go(l, "es") ELSE Done(l, TRUE, "some", l.hit)
+                       ELSE IF EnsureLike(api) THEN Judged(l) ELSE Done(l, TRUE, "some", l.hit)
+      [] lbl = "g3" -> IF EnsureLike(api) THEN Judged(l) ELSE Done(l, TRUE, "some", l.hit)
       [] lbl = "t1" -> IF ok THEN Go([l EXCEPT !.fd = c.ino], "t3")
                        ELSE IF WriteFallback THEN Go(l, "t2")
                        ELSE IF AbsentErr(c.res) THEN
@@ -352,7 +363,7 @@ AfterL(p, l, lbl, c) ==
                             (IF l.probe = 1 /\ l.h2 # l.b THEN GoNow([l2 EXCEPT !.probe = 2, !.b = l.h2], "t1") ELSE Done(l2, TRUE, "false", ""))
                        ELSE Done(l2, FALSE, l.ferr, "")
       \* temp_dir()
-      [] lbl = "a1" -> LET nxt == IF api = "ensure" THEN "ec" ELSE "a3" IN
+      [] lbl = "a1" -> LET nxt == IF EnsureLike(api) THEN "ec" ELSE "a3" IN
                        IF ok /\ c.st.kind = "dir" THEN Go(l, nxt) ELSE MkdirAll(l, Chain(l.td), nxt)
       \* create_dir_all: first attempt at level mki
       [] lbl = "k1" -> IF ok THEN (IF l.mki = 1 THEN Go(l, l.mkok) ELSE Go([l EXCEPT !.mki = @ - 1], "k2"))
@@ -428,7 +439,7 @@ AfterL(p, l, lbl, c) ==
       [] lbl = "p4" -> IF ok THEN Go([l EXCEPT !.stmode = c.st.mode], "p5") ELSE PublishFailed(l)
       [] lbl = "p5" -> IF ok THEN Go(l, "p6") ELSE PublishFailed(l)
       [] lbl = "p6" -> IF ok THEN Go(l, "p7")
-                       ELSE IF api \in {"put", "put_tf", "ensure"} /\ c.res = "EEXIST" THEN GoNow(l, "q1")
+                       ELSE IF ~SetsL(l) /\ c.res = "EEXIST" THEN GoNow(l, "q1")
                        ELSE PublishFailed(l)
       [] lbl = "q1" -> IF ok THEN Go([l EXCEPT !.fd = c.ino], "q3")
                        ELSE IF WriteFallback THEN Go(l, "q2")
@@ -441,10 +452,12 @@ AfterL(p, l, lbl, c) ==
       [] lbl = "p7" -> IF ok \/ AbsentErr(c.res) THEN FinishWrite(l) ELSE PublishFailed(l)
       \* ensure: rewind the hit; a hit in the write cache is returned, a hit in the read-only cache is promoted
       [] lbl = "es" -> IF ~ok THEN Go([l EXCEPT !.cont = "err"], "ecl4")
-                       ELSE IF l.b = Root THEN Done(l, TRUE, "some", l.hit)
+                       ELSE IF l.b = Root \/ JudgeOf(l.op) = "accept" THEN Done(l, TRUE, "some", l.hit)
                        ELSE Go([l EXCEPT !.b = Root, !.td = TDof(Root), !.wcont = "esk"], "a1")
-      [] lbl = "ec" -> IF ok THEN Go([l EXCEPT !.tmp = c.path.n, !.tino = c.ino, !.wr = 0, !.tfd = TRUE], IF l.wcont = "esk" THEN "ef1" ELSE "ew")
+      [] lbl = "ec" -> IF ok THEN Go([l EXCEPT !.tmp = c.path.n, !.tino = c.ino, !.wr = 0, !.tfd = TRUE], IF l.wcont = "esk" THEN "ef1" ELSE IF l.wcont = "rep" THEN "eoc" ELSE "ew")
                        ELSE Fail(l)
+      [] lbl = "eoc" -> Go([l EXCEPT !.hit = ""], "ew")
+      [] lbl = "ecl5" -> Go([l EXCEPT !.hit = ""], "eun")
       [] lbl = "ef1" -> Go(l, "ef2")
       [] lbl = "ef2" -> Go(l, "ecp1")
       [] lbl = "ecp1" -> IF ok THEN Go(l, "ecp2") ELSE Fail(l)
@@ -463,8 +476,8 @@ AfterL(p, l, lbl, c) ==
       [] lbl = "eg3" -> Go(l, "ecl2")
       [] lbl = "ecl2" -> Go([l EXCEPT !.hit = l.fd, !.cont = "ok"], "eun")
       [] lbl = "eun" -> IF l.cont = "ok" THEN Done(l, TRUE, "some", l.hit)
-                        ELSE IF l.tfd THEN Go(l, "ecl3") ELSE IF l.wcont = "esk" THEN Go(l, "ecl4") ELSE Done(l, FALSE, "err", "")
-      [] lbl = "ecl3" -> IF l.wcont = "esk" THEN Go([l EXCEPT !.tfd = FALSE], "ecl4") ELSE Done([l EXCEPT !.tfd = FALSE], FALSE, "err", "")
+                        ELSE IF l.tfd THEN Go(l, "ecl3") ELSE IF l.wcont = "esk" \/ (l.wcont = "rep" /\ l.hit # "") THEN Go(l, "ecl4") ELSE Done(l, FALSE, "err", "")
+      [] lbl = "ecl3" -> IF l.wcont = "esk" \/ (l.wcont = "rep" /\ l.hit # "") THEN Go([l EXCEPT !.tfd = FALSE], "ecl4") ELSE Done([l EXCEPT !.tfd = FALSE], FALSE, "err", "")
       [] lbl = "ecl4" -> Done(l, FALSE, "err", "")
       \* application epilogue
       [] lbl = "ms1" -> IF ok THEN Go(l, "ms2") ELSE Fail(l)
@@ -518,7 +531,7 @@ Alive(p) == p \notin aux.crashed
 \* The application reads what a lookup returned as soon as it has it (the driver does, in the same scheduling step as the
 \* operation's last call): under relatime that read marks a still unmarked file (atime := now).
 AppRead(f, nx, api) ==
-    IF nx.ret # <<>> /\ nx.ret[1].ok /\ api \in {"get", "ensure"} /\ nx.ret[1].res = "some" /\ nx.ret[1].hit \in DOMAIN f.inos
+    IF nx.ret # <<>> /\ nx.ret[1].ok /\ api \in {"get", "ensure", "gou"} /\ nx.ret[1].res = "some" /\ nx.ret[1].hit \in DOMAIN f.inos
        /\ TLt(f.inos[nx.ret[1].hit].at, f.inos[nx.ret[1].hit].mt)
     THEN [f EXCEPT !.inos[nx.ret[1].hit].at = Tm(clock)] ELSE f
 
@@ -528,14 +541,14 @@ Begin(p) ==
            dirs == KeyDirsOf(o.key)
            ord == IF FrontKind # "sharded" THEN <<Root, Root>> ELSE OrderByLoad(loc[p], dirs)
            base == [IdleLoc EXCEPT !.opi = loc[p].opi + 1, !.op = o, !.now = clock, !.est = loc[p].est]
-           l == IF o.api \in {"get", "touch", "ensure"} THEN [base EXCEPT !.b = dirs[1], !.h1 = dirs[1], !.h2 = dirs[2], !.probe = 1]
+           l == IF o.api \in {"get", "touch", "ensure", "gou"} THEN [base EXCEPT !.b = dirs[1], !.h1 = dirs[1], !.h2 = dirs[2], !.probe = 1]
                 ELSE IF StagedOutside(o.api) THEN [base EXCEPT !.h1 = Root, !.h2 = Root, !.b = Root, !.td = SrcDir]
                 ELSE [base EXCEPT !.h1 = ord[1], !.h2 = ord[2], !.b = ord[1], !.td = TDof(ord[1])]
        IN /\ loc' = [loc EXCEPT ![p] = l]
-          /\ pc' = [pc EXCEPT ![p] = IF o.api \in {"get", "ensure"} THEN "g1" ELSE IF o.api = "touch" THEN "t1"
+          /\ pc' = [pc EXCEPT ![p] = IF o.api \in {"get", "ensure", "gou"} THEN "g1" ELSE IF o.api = "touch" THEN "t1"
                                      ELSE IF StagedOutside(o.api) THEN "a3"
                                      ELSE IF FrontKind # "sharded" THEN "a1" ELSE "s0"]
-          /\ aux' = [aux EXCEPT !.supplied = @ \cup (IF o.api \in {"set", "put", "set_tf", "put_tf", "ensure"} THEN {<<o.key, o.val>>} ELSE {})]
+          /\ aux' = [aux EXCEPT !.supplied = @ \cup (IF o.api \in {"set", "put", "set_tf", "put_tf", "ensure", "gou"} THEN {<<o.key, o.val>>} ELSE {})]
           /\ last' = [e |-> "call", p |-> p, api |-> o.api, key |-> o.key]
     /\ clock' = clock + 1
     /\ UNCHANGED <<fs, nino>>
@@ -651,7 +664,7 @@ InvDirValid == DirValid(Cfg, S)
 InvDebris == DebrisConfined(Cfg, S)
 \* every handle a lookup returned reads as a complete value supplied for that key (C01)
 InvHandle == \A p \in DOMAIN aux.rets : LET r == aux.rets[p] IN
-    r.api \in {"get", "ensure"} /\ r.ok /\ r.res = "some" /\ pc[p] = "ret" =>
+    r.api \in {"get", "ensure", "gou"} /\ r.ok /\ r.res = "some" /\ pc[p] = "ret" =>
         /\ r.hit \in DOMAIN fs.inos
         /\ ValueFor(fs.inos[r.hit].c, r.key)
         /\ <<r.key, fs.inos[r.hit].c.val>> \in aux.supplied
@@ -703,6 +716,15 @@ StepRegister == [][FrontKind = "plain" => \A k \in AllKeys : LET a == Abs(fs, k)
 StepGetLin == [][last'.e = "sys" /\ last'.api = "get" /\ last'.pcl = "g1" /\ last'.res = "ok" =>
                     fs.inos[last'.ino].c.val = AbsIn(fs, DirOf(last'.path), last'.path.n)]_vars
 
+\* C13: a Replace answered for a hit returns the value this call populated, under every schedule
+InvReplaceOwn == \A p \in DOMAIN aux.rets : LET r == aux.rets[p] IN
+    r.api = "gou" /\ r.ok /\ pc[p] = "ret" /\ loc[p].wcont = "rep" =>
+        r.hit \in DOMAIN fs.inos /\ fs.inos[r.hit].c.val = Op(p).val
+\* ... and stores it: the only call that binds a Replace's key is its own rename of its own temporary file
+StepReplaceStores == [][last'.e = "sys" /\ last'.api = "gou" /\ last'.call \in {"rename", "link"} /\ last'.res = "ok" /\ last'.ph = "lib" =>
+                          LET q == last'.p IN
+                          /\ (loc[q].wcont = "rep") = (last'.call = "rename")
+                          /\ (last'.call = "rename" => AbsIn(fs', Root, last'.path2.n) = loc[q].op.val)]_vars
 \* C18 at design level (FaultBudget > 0).  No temporary file made for a finished operation of a live participant is left
 \* behind, unless the failing call was the very unlink that should have removed it:
 TempNamesOf(p) == {TmpNameL(p, [opi |-> i]) : i \in 1..Len(Prog[p])}
@@ -714,7 +736,8 @@ InvNoLeak == \A p \in Procs : Alive(p) /\ pc[p] = "idle" =>
 InvFaultReported == Cardinality(Procs) = 1 => \A p \in Procs : pc[p] = "ret" /\ p \in DOMAIN aux.rets /\ aux.rets[p].ok =>
                         LET o == Op(p) IN
                         /\ SetLike(o.api) => Abs(fs, o.key) = o.val
-                        /\ o.api \in {"put", "put_tf", "ensure"} => Abs(fs, o.key) # "none"
+                        /\ (o.api = "gou" /\ loc[p].wcont = "rep") => Abs(fs, o.key) = o.val
+                        /\ o.api \in {"put", "put_tf", "ensure", "gou"} => Abs(fs, o.key) # "none"
 \* errors are returned only by operations that were hit by a fault (C05 and C18 together)
 InvErrOnlyIfFaulted == aux.errs = {}
 
